@@ -40,6 +40,16 @@ def step (c : Cfg) (s : State) : Act → Option State
 theorem step_eq_of_ne (c : Cfg) (s : State) (a : Act) (h : a ≠ .preFail) : step c s a = AFifo.step c s a := by
   cases a <;> first | rfl | exact absurd rfl h
 
+/-- … so the pinned code behaves exactly like the repaired one (and all of `Props/C16.lean` applies
+    to it) as long as the preprocessor never rejects an element: the defect is confined to rejections -/
+theorem step_eq_of_no_reject (c : Cfg) (h : ∀ i, c.preFail i = false) (s : State) (a : Act) :
+    step c s a = AFifo.step c s a := by
+  by_cases ha : a = .preFail
+  · subst ha
+    simp only [step, AFifo.step]
+    cases s.fpc <;> simp [h]
+  · exact step_eq_of_ne c s a ha
+
 /-- C16 fails on the pinned code: with the preprocessor rejecting element 1 (and
     `return_exceptions`), there is a run after which the consumer has been handed element 1 paired
     with element 0's *result* instead of element 1's own exception. -/
